@@ -1,5 +1,5 @@
 #!/bin/bash
-python3 -c "import sys; sys.path.insert(0, "/verif"); import checks_config" || { echo "cfg does not parse"; exit 1; }
+(cd /verif && python3 -c 'import checks_config') || { echo 'cfg does not parse'; exit 1; }
 # validates MANIFEST.json and all evidence files against the schemas
 python3-vt - <<'PY'
 import json,jsonschema,glob
